@@ -403,6 +403,14 @@ class ASTTypeBuilder:
             return current
         try:
             return _completed_input_value(current, extended_type())
+        except _MissingRequiredField as err:
+            # An extension added a required input field: the value is not a
+            # value of the extended type any more.
+            node = getattr(element, "node", None)
+            raise SDLError(
+                'Invalid default value for "%s": %s' % (element.name, err),
+                [node] if node is not None else None,
+            )
         except SDLError:  # type being extended right now (cyclic definition)
             return current
 
@@ -656,8 +664,17 @@ def _completed_input_value(value: Any, type_: GraphQLType) -> Any:
                 )
             elif field.has_default_value:
                 completed[field.python_name] = field.default_value
+            elif isinstance(field.type, NonNullType):
+                raise _MissingRequiredField(
+                    'missing required field "%s" of "%s"'
+                    % (field.name, type_.name)
+                )
         return completed
     return value
+
+
+class _MissingRequiredField(Exception):
+    pass
 
 
 def _deprecation_reason(
